@@ -78,7 +78,18 @@ def build_jobs(tier, rep):
     for k, d in enumerate(gen.sample(htmlish, 900 if q else 40000, C.SEED + 8, keep_short=500)):
         for o in singles:
             jobs.append((d, o, CFG))
-    rep.cov["bounds"] = {"html_block_seeds": len(htmlish), "code_in_container_seeds": len(codeish), "L1_seeds_enumerated": len(l1), "seeds_used": len(seeds), "op_sequences": len(ops),
+    # stratum: fenced blocks holding fence-like lines (a shorter / longer / indented run of the fence character):
+    # which line closes the fence must not depend on the container's indentation
+    fenceish = gen.fence_docs() + [d for d in l1 if re.search(r"(^|\n) {0,3}(`{3,}|~{3,})[^\n]*\n(.*\n)* {0,3}(`{2,}|~{2,}) *(\n|$)", d)]
+    for k, d in enumerate(gen.sample(fenceish, 1500 if q else 40000, C.SEED + 9, keep_short=300)):
+        for j, o in enumerate(singles):
+            if (k + j) % (4 if q else 1) == 0:
+                jobs.append((d, o, CFG))
+    tails = gen.container_tail_docs()
+    for k, d in enumerate(gen.sample(tails, 1200 if q else 10 ** 9, C.SEED + 10)):
+        jobs.append((d, singles[k % len(singles)], CFG))
+        jobs.append((d, singles[(k * 5 + 1) % len(singles)], CFG100))
+    rep.cov["bounds"] = {"fence_body_seeds": len(fenceish), "container_tail_seeds": len(tails), "html_block_seeds": len(htmlish), "code_in_container_seeds": len(codeish), "L1_seeds_enumerated": len(l1), "seeds_used": len(seeds), "op_sequences": len(ops),
                          "seed_x_sequence_cases": len(jobs)}
     rep.cov["exhaustive"] = False
     return jobs
